@@ -221,7 +221,9 @@ def classify(run, tags, spans, fns, sections, lines, fn_props):
         # default labels by kind and site
         dprops = set()
         if "arithmetic underflow/overflow" in msg or "division by zero" in msg:
-            dprops.update(["C10", "C17"])
+            # a size computation that can wrap: the profiles diverge (C17), a debug build panics where no panic is
+            # documented (C01, and C13 through the set layer), capacity promises rest on it (C10)
+            dprops.update(["C01", "C10", "C13", "C17"])
             if fkey in ("RawTable::try_grow", "RawTable::shrink_to", "RawTable::carry"):
                 dprops.add("C04")
             if not names:
@@ -232,6 +234,7 @@ def classify(run, tags, spans, fns, sections, lines, fn_props):
                 names.append("debug_assert") if not names else None
             elif not names:
                 dprops.update(["C01"])
+                dprops.update(fn_props.get(fkey, []))   # the function panics instead of doing what its contract serves
                 if fkey == "RawTable::insert":
                     dprops.add("C04")
                 names.append("assert")
@@ -241,6 +244,7 @@ def classify(run, tags, spans, fns, sections, lines, fn_props):
                 names.append("debug_assert")
             elif re.search(r"\bassert(_eq|_ne)?!", text) and not names:
                 dprops.update(["C01"])          # a release-mode assertion that can fire: an undocumented panic
+                dprops.update(fn_props.get(fkey, []))   # ... in place of what the function's contract serves
                 if fkey == "RawTable::insert":
                     dprops.add("C04")
                 names.append("assert")
@@ -482,6 +486,13 @@ def run_with_demotion(repo="/repo", **kw):
     for _ in range(6):
         res = run_pipeline(repo=repo, demote=tuple(demote), **kw)
         if res.get("undecided"):
+            # an extraction problem confined to one function (lost loop anchor, a loop the contract does not know):
+            # that function is demoted like one the verifier rejects, the rest is still decided
+            m = re.search(r"\[demotable fn=([^\]]+)\]", res["undecided"])
+            if m and m.group(1) not in demote:
+                demote.append(m.group(1))
+                log.append({"fn": m.group(1), "msg": res["undecided"][:300], "profile": "extraction"})
+                continue
             res["demotion_log"] = log
             return res
         new = sorted(set(s["fn"] for s in res["structural"] if s["fn"] and s["fn"] not in demote))
